@@ -111,6 +111,11 @@ def allocate_real(cfg, ec=None, shift=0):
             sg = SyncGroup(ec, devs)
             sg.allocate()
         except OverflowError as e:
+            if "too many sync groups" in str(e):
+                # not a verdict on this group's frame: the master's share of the address space is used up;
+                # nothing was handed out (run_script counts it)
+                groups.pop()
+                raise
             rec.update(res="overflow", exc=str(e))
             continue
         except Exception as e:
@@ -176,22 +181,38 @@ def run_script(script, lockfile):
         os.remove(lockfile)
     masters, locks = bus_masters(script["master"], lockfile)
     groups = []
+    refused = 0
+
+    def exhausted(e):
+        # a master may refuse a further group when its share of the logical address space is used up (the repaired
+        # FMMULock does, F46): no window is handed out, so nothing is owed; the history goes on without that group
+        return isinstance(e, OverflowError) and "too many sync groups" in str(e)
     try:
         for op in script["ops"]:
             ec = masters[op["proc"]]
             if op["op"] == "churn":
                 for _ in range(op["n"]):
-                    ec.get_fmmu_addr()      # all an allocation does to the master
+                    try:
+                        ec.get_fmmu_addr()      # all an allocation does to the master
+                    except OverflowError as e:
+                        if not exhausted(e):
+                            raise
+                        refused += 1
                 continue
             for _ in range(op["n"] if op["op"] == "crowd" else 1):
                 c = dict(ts=op["ts"], gs=[1] * len(op["ts"]), variant=0)
-                groups += allocate_real(c, ec, shift=len(groups))["groups"]
+                try:
+                    groups += allocate_real(c, ec, shift=len(groups))["groups"]
+                except OverflowError as e:
+                    if not exhausted(e):
+                        raise
+                    refused += 1
     finally:
         for lk in locks:
             os.close(lk.fd)
         if os.path.exists(lockfile):
             os.remove(lockfile)
-    return dict(groups=groups, variant=0)
+    return dict(groups=groups, variant=0, refused=refused)
 
 
 # ---------- configurations --------------------------------------------------------------------
@@ -299,9 +320,9 @@ CHECK_DEADLOCK FALSE
 def histories(ctx, wd):
     """buses with a history: TLC enumerates the scripts of AllocHistory"""
     q = ctx.quick
-    ks = {6, 8, 10, 11, 12, 14} if q else set(range(4, 19))
+    ks = {8, 10, 12} if q else set(range(4, 19))
     kinds = {"tiny", "wide"} if q else {"tiny", "wide", "aero"}
-    crowds = {1100} if q else {1100, 4200}
+    crowds = {1100} if q else {1100, 2100}
     T.write_module(wd, "MC18_history", dict(hMasters={"simple", "parallel"}, hKs=ks, hKinds=kinds,
                                             hCrowds=crowds), extends=("AllocHistory",))
     T.write_cfg(wd, "MC18_history.cfg", """SPECIFICATION HSpec
